@@ -607,7 +607,7 @@ Proof.
       destruct (Q2 (Q3 Hi0)) as [Hp _]. auto.
     + qstep.
   - (* FSched *)
-    destruct (collecting l); inversion Hm; subst s' o; clear Hm; qstep. popk.
+    destruct (collecting l && Nat.eqb (gcnt l) 1); inversion Hm; subst s' o; clear Hm; qstep. popk.
   - (* FDeferIncr *)
     match type of Hm with context [if ?c then _ else _] => destruct c eqn:Hc end; inversion Hm; subst s' o; clear Hm; qstep. popk.
   - (* FFlush0 *)
